@@ -52,6 +52,9 @@ type Case struct {
 	// cumulative, so the timeline has runs of durations A..A B A..A B ...
 	Irregular bool   `json:"irregular_durations,omitempty"`
 	Base      uint32 `json:"base_number"`
+	// TwoChunks: every video segment is uploaded as two chunks (moof+mdat each) whose sample durations are tfhd defaults that
+	// differ between the chunks
+	TwoChunks bool `json:"two_chunk_video,omitempty"`
 }
 
 const chName = "ch1"
@@ -78,6 +81,7 @@ func genCase(t *rapid.T) Case {
 	for _, tr := range c.Tracks {
 		hasText = hasText || tr.Kind == "text"
 	}
+	c.TwoChunks = rapid.IntRange(0, 3).Draw(t, "two-chunks") == 0
 	c.Irregular = rapid.IntRange(0, 2).Draw(t, "irregular") == 0 && c.StartNr == 0 && !hasText
 	c.Kind = rapid.SampledFrom([]string{"in-order", "in-order", "gaps", "duplicates", "shuffled", "late-track", "late-init"}).Draw(t, "kind")
 	if c.Kind != "in-order" {
@@ -160,13 +164,15 @@ func readSeg(path string) (segFile, error) {
 		return segFile{}, fmt.Errorf("no fragment")
 	}
 	fr := f.Segments[0].Fragments[0]
-	fss, err := fr.GetFullSamples(nil)
-	if err != nil {
-		return segFile{}, err
-	}
 	var d uint64
-	for _, s := range fss {
-		d += uint64(s.Dur)
+	for _, fx := range f.Segments[0].Fragments {
+		fss, err := fx.GetFullSamples(nil)
+		if err != nil {
+			return segFile{}, err
+		}
+		for _, s := range fss {
+			d += uint64(s.Dur)
+		}
 	}
 	return segFile{seq: fr.Moof.Mfhd.SequenceNumber, tfdt: fr.Moof.Traf.Tfdt.BaseMediaDecodeTime(), dur: d}, nil
 }
@@ -292,7 +298,11 @@ func checkCase(c Case, storage string) (*hx.Violation, info) {
 				return v
 			}
 		}
-		body, err := rx.MediaSeg(tr.Kind, op.Seq, dts, dur, byte(op.Track+1), i%2 == 0)
+		mk := rx.MediaSeg
+		if c.TwoChunks && tr.Kind == "video" {
+			mk = rx.MediaSegTwoChunks
+		}
+		body, err := mk(tr.Kind, op.Seq, dts, dur, byte(op.Track+1), i%2 == 0)
 		if err != nil {
 			return hx.V("harness", "%v", err)
 		}
@@ -542,6 +552,9 @@ func TestC17(t *testing.T) {
 		run.Journal(c)
 		v, inf := checkCase(c, storage)
 		cls := []string{"kind:" + c.Kind, "tracks:" + strconv.Itoa(len(c.Tracks))}
+		if c.TwoChunks && c.DurTicks == 100000 && !c.Irregular {
+			cls = append(cls, "two-chunk-video-segments")
+		}
 		if inf.spread >= 2 {
 			cls = append(cls, "tracks>=2-apart")
 		}
